@@ -372,6 +372,24 @@ Definition fold_num (f : R -> R -> R) (l : list val) : res val :=
              | y :: r' => match to_x y with Some (Fin y0) => go (f acc y0) r' | _ => Stuck "min/max: non-finite" end end) x0 r
       | _ => Stuck "min/max: non-finite" end
   end.
+Definition const_like (c : val) (x : val) : val := match seq_payload x with Some row => VList (map (fun _ => c) row) | None => c end.
+Fixpoint transpose_rows (fuel : nat) (rows : list (list val)) : list val :=
+  match fuel with O => [] | S f =>
+  match rows with
+  | [] => []
+  | r :: _ => match r with
+              | [] => []
+              | _ => VList (map (fun row => hd VNone row) rows) :: transpose_rows f (map (@tl val) rows) end
+  end end.
+Definition np_transpose (v : val) : res val :=
+  match seq_payload v with
+  | Some l => if is_nested l then
+                match (fix go (l : list val) : option (list (list val)) :=
+                         match l with [] => Some [] | x :: r => match seq_payload x, go r with Some row, Some rest => Some (row :: rest) | _, _ => None end end) l with
+                | Some rows => Ok (VArr (transpose_rows (S (length (hd [] rows))) rows))
+                | None => Stuck "transpose: ragged" end
+              else Ok v
+  | None => Stuck "transpose" end.
 Definition np_mean (l : list val) (w : world) : res (val * world) :=
   do sw <- vsum_l l w; num2 m_div (fst sw) (VInt (Z.of_nat (length l))) (snd sw).
 Definition np_average (l wl : list val) (w : world) : res (val * world) :=
@@ -396,8 +414,8 @@ Definition builtin (name : string) (args : list val) (kws : list (string * val))
   | "np.outer" => Some (match args with [u; v] => do r <- np_outer (ul u) (ul v) w; Ok (arr (fst r), snd r) | _ => Exc "TypeError" end)
   | "np.sum" => Some (match args with [a] => do l <- as_list a; vsum_l (flatten2 l) w | _ => Exc "TypeError" end)
   | "sum" => Some (match args with [a] => do l <- as_list a; vsum_l l w | _ => Exc "TypeError" end)
-  | "np.zeros_like" => Some (pure_ (match args with [a] => do l <- as_list a; Ok (VArr (map (fun _ => VNum (Fin 0)) l)) | _ => Exc "TypeError" end) w)
-  | "np.ones_like" => Some (pure_ (match args with [a] => do l <- as_list a; Ok (VArr (map (fun _ => VNum (Fin 1)) l)) | _ => Exc "TypeError" end) w)
+  | "np.zeros_like" => Some (pure_ (match args with [a] => do l <- as_list a; Ok (VArr (map (const_like (VNum (Fin 0))) l)) | _ => Exc "TypeError" end) w)
+  | "np.ones_like" => Some (pure_ (match args with [a] => do l <- as_list a; Ok (VArr (map (const_like (VNum (Fin 1))) l)) | _ => Exc "TypeError" end) w)
   | "np.mean" => Some (match args with [a] => do l <- as_list a; np_mean (flatten2 l) w | _ => Stuck "np.mean: arity" end)
   | "np.average" => Some (match args with
                          | [a] => do l <- as_list a;
@@ -652,6 +670,7 @@ Fixpoint eval (fuel : nat) (e : expr) (ρ : env) (w : world) {struct fuel} : res
                        | None => match methods G cls a with
                                  | Some _ => Ok (VObj "<bound method>" [("self", fst vw); ("cls", VStr cls); ("name", VStr a)], snd vw)
                                  | None => Exc "AttributeError" end end
+      | VArr _ | VList _ => if String.eqb a "T" then do t <- np_transpose (fst vw); Ok (t, snd vw) else Stuck "attr of an array"
       | VMod "np" => Ok (match a with "inf" => VNum PosInf | "pi" => VNum (Fin PI) | _ => VMod ("np." ++ a) end, snd vw)
       | VMod m => match globals G (m ++ "." ++ a) with
                   | Some (COracle o) => o [] [] (snd vw)
